@@ -35,7 +35,10 @@ Definition ex_img : image :=
      pad_start := 7 * 2048; pad_size := 32 * 2048; total := 39 * 2048 |}.
 
 Example C09_ex_wf : layout_wf ex_img.
-Proof. constructor; cbn; repeat split; try reflexivity; try lia. Qed.
+Proof.
+  assert (L : zlen (fsbuf ex_img) = 4096) by (vm_compute; reflexivity).
+  constructor; rewrite ?L; cbn -[Z.mul Z.add Z.opp]; repeat split; try reflexivity; try lia.
+Qed.
 
 Example C09_ex_read :
   match iso_read ex_img (4096 + 90) 4096 with
